@@ -349,7 +349,7 @@ pub static mut UF: UfTable = UfTable { n: 0, e: [UfEntry { used: false, k0: 0, k
 /// irrefutable array pattern, so they are loop-free and index-free.
 macro_rules! uf_family {
     ($seed:ident, $look:ident, $inv:ident, $abs:ident, $rel:ident, $ulps:ident, cap $cap:literal, slots($($e:ident)+)) => {
-        pub fn $seed(k0: u32, k1: u32, k2: u32, k3: u32) {
+        pub fn $seed(k0: u32, k1: u32, k2: u32, k3: u32) -> u32 {
             unsafe {
                 let n = UF.n;
                 assert!(n < $cap);
@@ -362,6 +362,7 @@ macro_rules! uf_family {
                 }
                 UF.e[n] = UfEntry { used: true, k0, k1, k2, k3, r: res };
                 UF.n = n + 1;
+                res
             }
         }
         pub fn $look(k0: u32, k1: u32, k2: u32, k3: u32) -> u32 {
@@ -436,6 +437,56 @@ macro_rules! approx_uf {
             $( $seed((a $($acc)+).to_bits(), (b $($acc)+).to_bits(), eps.to_bits(), max_ulps); )+
             let r = UlpsEq::ulps_eq(&a, &b, eps, max_ulps);
             assert!(r == (true $(&& UlpsEq::ulps_eq(&a $($acc)+, &b $($acc)+, eps, max_ulps))+));
+        }
+    };
+}
+
+/// Variants for the 32- and 64-lane vectors: identical statement, but the scalar side takes the value the
+/// model assigned to lane i's argument tuple directly from `$seed` (which is what a stubbed scalar call with
+/// those arguments returns -- see c20_uf_model_deterministic) instead of calling the stub again; this saves a
+/// third of the (quadratically many) table comparisons.
+macro_rules! lift_inv_uf_big {
+    ($h:ident, $V:ident<f32> ($($f:tt)+), $seed:ident, $inv:ident) => {
+        #[kani::proof]
+        #[kani::stub(<f32 as Inv>::inv, $inv)]
+        fn $h() {
+            let a = any_vec!($V<f32> ($($f)+));
+            let s = $V::<u32>::new($( $seed(a.$f.to_bits(), 0, 0, 0) ),+);
+            let r = Inv::inv(a);
+            assert!(true $(&& r.$f.to_bits() == s.$f)+);
+        }
+    };
+}
+macro_rules! approx_uf_big {
+    ($h_abs:ident, $h_rel:ident, $h_ulps:ident, $V:ident<f32> ($($f:tt)+), stubs($seed:ident, $abs:ident, $rel:ident, $ulps:ident)) => {
+        #[kani::proof]
+        #[kani::stub(<f32 as AbsDiffEq>::abs_diff_eq, $abs)]
+        fn $h_abs() {
+            let a = any_vec!($V<f32> ($($f)+));
+            let b = any_vec!($V<f32> ($($f)+));
+            let eps: f32 = kani::any();
+            let s = true $(& ($seed(a.$f.to_bits(), b.$f.to_bits(), eps.to_bits(), 0) & 1 == 1))+;
+            assert!(AbsDiffEq::abs_diff_eq(&a, &b, eps) == s);
+        }
+        #[kani::proof]
+        #[kani::stub(<f32 as RelativeEq>::relative_eq, $rel)]
+        fn $h_rel() {
+            let a = any_vec!($V<f32> ($($f)+));
+            let b = any_vec!($V<f32> ($($f)+));
+            let eps: f32 = kani::any();
+            let max_rel: f32 = kani::any();
+            let s = true $(& ($seed(a.$f.to_bits(), b.$f.to_bits(), eps.to_bits(), max_rel.to_bits()) & 1 == 1))+;
+            assert!(RelativeEq::relative_eq(&a, &b, eps, max_rel) == s);
+        }
+        #[kani::proof]
+        #[kani::stub(<f32 as UlpsEq>::ulps_eq, $ulps)]
+        fn $h_ulps() {
+            let a = any_vec!($V<f32> ($($f)+));
+            let b = any_vec!($V<f32> ($($f)+));
+            let eps: f32 = kani::any();
+            let max_ulps: u32 = kani::any();
+            let s = true $(& ($seed(a.$f.to_bits(), b.$f.to_bits(), eps.to_bits(), max_ulps) & 1 == 1))+;
+            assert!(UlpsEq::ulps_eq(&a, &b, eps, max_ulps) == s);
         }
     };
 }
